@@ -22,6 +22,8 @@ TInit == l = 1 /\ TLCSet(1, 0)
 \* ZSTD_COMPRESSBOUND, as in Capacity.tla
 Bound(n) == n + (n \div 256) + (IF n < 131072 THEN (131072 - n) \div 2048 ELSE 0)
 
+\* (ZSTD_generateSequences may decline an input, e.g. one byte: then there is nothing to sweep)
+CSweepSkipped == Is("csweep") /\ ~Ev.refok /\ Ev.err = "generateSequences"
 CSweep == /\ Is("csweep")
           /\ Ev.refok                                   \* with room to spare every entry point succeeds
           /\ Ev.okOverCap = 0 /\ Ev.posOver = 0         \* a success never reports more than the capacity / pos <= size
@@ -45,7 +47,7 @@ Inspect == /\ Is("inspect")
            /\ (Ev.anyUnknown => ~Ev.fdsKnown) /\ ((~Ev.anyUnknown) => (Ev.fdsKnown /\ Ev.fdsOk))     \* findDecompressedSize
            /\ (~Ev.marginErr) /\ Ev.inplaceOk            \* in-place decoding with the advertised margin succeeds
 Other == /\ l <= Len(Tr) /\ Ev.e \in {"op", "end"} /\ l' = l + 1
-TNext == CSweep \/ DSweep \/ Inspect \/ Other
+TNext == CSweepSkipped \/ CSweep \/ DSweep \/ Inspect \/ Other
 Track == IF l > TLCGet(1) THEN TLCSet(1, l) ELSE TRUE
 TraceAccepted == IF TLCGet(1) = Len(Tr) + 1 THEN TRUE
                  ELSE /\ PrintT(<<"TRACE-REJECT matched", TLCGet(1) - 1, "of", Len(Tr), "next line", IF TLCGet(1) <= Len(Tr) THEN Tr[TLCGet(1)] ELSE <<>> >>)
